@@ -335,6 +335,8 @@ type db struct {
 	aux     interface{}       // property-private state
 	preOp   func(op simrt.Op) // called before every op
 	onQuery func(q string)    // called with every client query text before it is sent
+
+	downNode *simNode // node made unreachable by "nodedown"
 }
 
 // dbOpts configures execDBOpt.
